@@ -503,7 +503,8 @@ func contract_MessageInfo_skipField(mi *MessageInfo, b []byte, f *coderFieldInfo
 // @ site#1 presence.SetPresentUnatomic(f.presenceIndex, mi.presenceSize): o.initialized || opts.flags&piface.UnmarshalCheckRequired == 0
 // @ site pos = end: imp(lazyDecode && f != nil && f.isLazy && num != lastNum, len(lazyIndex) > 0 && lazyIndex[len(lazyIndex)-1].FieldNum == uint32(num) && lazyIndex[len(lazyIndex)-1].Start == uint32(pos) && lazyIndex[len(lazyIndex)-1].End == uint32(end))
 // @ site pos = end: imp(lazyDecode && f != nil && f.isLazy && num == lastNum && len(lazyIndex) > 0, lazyIndex[len(lazyIndex)-1].End == uint32(end))
-// @ loop 1 fallthrough lastNum == num && pos == start-len(b)
+// @ loop 1 fallthrough lastNum == num
+// @ loop 1 fallthrough pos == start-len(b)
 // @ site wtyp := protowire.Type(tag & 7): protowire.MinValidNumber <= num && num <= protowire.MaxValidNumber
 func contract_MessageInfo_unmarshalPointerLazy(mi *MessageInfo, b []byte, p pointer, groupTag protowire.Number, opts unmarshalOptions) (out unmarshalOutput, err error) {
 	requires(mi != nil && p.p != nil)
